@@ -396,6 +396,31 @@ def validate_trace(ctx, module, constants, trace_path, name, timeout=900, extra_
             "wall_s": parsed["wall_s"], "cmd": parsed["cmd"]}
 
 
+def run_tlaps(ctx, module, extra_modules=()):
+    """Optional support (never the only support of a claim): proves spec/proofs/<module>.tla with tlapm.
+    Returns a dict for the evidence: status proved / unproved / timeout."""
+    import re
+    d = ctx.path("tlaps_" + module)
+    shutil.rmtree(d, ignore_errors=True)
+    os.makedirs(d)
+    shutil.copy(os.path.join(SPEC, "proofs", module + ".tla"), d)
+    for m in extra_modules:
+        shutil.copy(os.path.join(SPEC, m + ".tla"), d)
+    try:
+        p = subprocess.run(["tlapm", "--cleanfp", "--threads", "4", module + ".tla"], cwd=d, stdout=subprocess.PIPE,
+                           stderr=subprocess.STDOUT, text=True, timeout=900)
+    except subprocess.TimeoutExpired:
+        ctx.log("TLAPS timed out on %s; the lemma is optional support, the claim stays at model-checking level" % module)
+        return {"module": module, "status": "timeout"}
+    m = re.search(r"All (\d+) obligations proved", p.stdout)
+    f = re.search(r"(\d+)/(\d+) obligations failed", p.stdout)
+    if m:
+        ctx.log("TLAPS: all %s obligations of %s.tla proved" % (m.group(1), module))
+        return {"module": module, "status": "proved", "obligations": int(m.group(1)), "checker_cmd": "tlapm --cleanfp %s.tla" % module}
+    ctx.log("TLAPS did not prove %s.tla (%s); optional support only" % (module, f.group(0) if f else "no result"))
+    return {"module": module, "status": "unproved", "detail": f.group(0) if f else p.stdout[-300:]}
+
+
 def count_lines(path):
     n = 0
     with open(path, "rb") as f:
